@@ -135,7 +135,7 @@ def check_property(prop, tier="quick", seed=0, jobs=16):
     hs = [k for k in KANI_UNITS if prop in k["props"] and TIERS[k.get("tier", "quick")] <= TIERS[tier]]
     kres = {}
     if hs:
-        tmo = max(k.get("timeout", 600) for k in hs)
+        tmo = max(max(k.get("timeout", 1800) for k in hs), 1800)
         try:
             res, info = K.run_harnesses([k["harness"] for k in hs], timeout_s=tmo, jobs=jobs)
             kres.update(res)
